@@ -288,6 +288,19 @@ class Sign(Domain):
     def min_one_iter(self, f, for_stmt):
         return f.qname in AT_LEAST_ONCE
 
+    def refine_env(self, test, truth, env, it, f):
+        """`x if all(x >= 0) else abs(x)`: in the true arm x is known to be non-negative"""
+        t = test
+        if isinstance(t, ast.Call) and call_name(t) == "all" and t.args:
+            t = t.args[0]
+        if truth and isinstance(t, ast.Compare) and len(t.ops) == 1 and isinstance(t.ops[0], (ast.GtE, ast.Gt)) and isinstance(t.left, ast.Name) and isinstance(t.comparators[0], ast.Constant) and isinstance(t.comparators[0].value, (int, float)) and t.comparators[0].value >= 0 and t.left.id in env:
+            v = env[t.left.id]
+            if isinstance(v, (Leaf, Sym)):
+                env2 = dict(env)
+                env2[t.left.id] = Leaf(NN) if isinstance(v, Leaf) else Sym(NN)
+                return env2
+        return env
+
 
 # ---------------------------------------------------------------------------------
 D = "tensorly.decomposition."
